@@ -31,7 +31,7 @@ RULE = ("seeded random ASTs over + - * / (strings) and + - * / min max consumpti
         "sub-expressions, large values and non-dyadic rationals. distinct = canonical program JSON; non-trivial = "
         ">=2 binary operators and >=1 round compared with a discriminating bound")
 PAIRS = [f"pair:{p}{s}{c}" for p in fm.BINOPS for s in "LR" for c in fm.BINOPS]
-REQUIRED_BUCKETS = ["inputs-stamped-in-different-time-zones-and-beginning-at-different-times", "api-sub-expression-object-used-in-two-expressions", "api-sub-expression-also-built-under-the-enclosing-formula's-name", "mode:string", "mode:builder", "mode:api", "mode:api3", "redundant-parens", "same-engine-twice",
+REQUIRED_BUCKETS = ["string-formula-for-a-metric-that-is-not-a-power", "inputs-stamped-in-different-time-zones-and-beginning-at-different-times", "api-sub-expression-object-used-in-two-expressions", "api-sub-expression-also-built-under-the-enclosing-formula's-name", "mode:string", "mode:builder", "mode:api", "mode:api3", "redundant-parens", "same-engine-twice",
                     "api-min-max", "api-consumption-production", "api-constant", "subexpression-zero", "mode:builderx",
                     "builder-clip-step", "inputs-begin-at-different-times",
                     "distinct-engines-with-the-same-name", "mode:pool", "api-nested-builds",
@@ -58,6 +58,9 @@ def gen(rng: Any, tier: str, i: int) -> Any:
     prog: dict[str, Any] = {"mode": mode, "nleaf": nleaf, "ast": ast}
     if mode in ("string", "builder", "pool"):
         prog["src"] = fm.to_str(ast, rng)
+    if mode == "pool":
+        prog["pool_metric"] = rng.choice(["ACTIVE_POWER", "ACTIVE_POWER", "SOC", "FREQUENCY", "VOLTAGE_PHASE_1", "CAPACITY",
+                                          "CURRENT_PHASE_2", "TEMPERATURE"])
     if rng.random() < 0.2:
         prog["tzmix"] = True  # every input stamps its samples in its own (fixed-offset) zone
     if mode == "api" and rng.random() < 0.4:
@@ -223,6 +226,8 @@ def check(prog: dict[str, Any], rec: Any) -> None:
         rec.bucket("api-sub-expression-also-built-under-the-enclosing-formula's-name")
     if prog.get("prelude"):
         rec.bucket("inputs-begin-at-different-times")
+    if prog.get("pool_metric") not in (None, "ACTIVE_POWER"):
+        rec.bucket("string-formula-for-a-metric-that-is-not-a-power")
     if prog.get("tzmix"):
         rec.bucket("inputs-stamped-in-different-time-zones")
         if prog.get("prelude"):
